@@ -123,6 +123,35 @@ def liveIds (sv : Server) : List Ident :=
 
 def err (status : Nat) : Resp := ⟨status, true, .error, none⟩
 
+/-- requests addressed to document `i` -/
+def serveDoc (sv : Server) (i : Ident) (rq : Req) : Server × Resp :=
+  match rq.method with
+  | .GET =>
+    match live sv i with
+    | some (g, d) => (sv, ⟨200, true, .doc i g d, some g⟩)
+    | none => (sv, err 404)
+  | .HEAD =>
+    match live sv i with
+    | some (g, _) => (sv, ⟨200, true, .empty, some g⟩)
+    | none => (sv, ⟨404, true, .empty, none⟩)
+  | .PUT =>
+    match rq.data with
+    | none => (sv, err 400)
+    | some d =>
+      match live sv i with
+      | some (g, _) =>
+        if rq.rev = some g then (write sv i (some d), ⟨201, true, .written i (g + 1), some (g + 1)⟩)
+        else (sv, err 409)
+      | none =>
+        if rq.rev = none then (write sv i (some d), ⟨201, true, .written i (genOf sv i + 1), some (genOf sv i + 1)⟩)
+        else (sv, err 409)
+  | .DELETE =>
+    match live sv i with
+    | some (g, _) =>
+      if rq.rev = some g then (write sv i none, ⟨200, true, .written i (g + 1), some (g + 1)⟩)
+      else (sv, err 409)
+    | none => (sv, err 404)
+
 def serve (sv : Server) (rq : Req) : Server × Resp :=
   match rq.target with
   | .db =>
@@ -135,34 +164,8 @@ def serve (sv : Server) (rq : Req) : Server × Resp :=
     | .GET => (sv, ⟨200, true, .rows (liveIds sv), none⟩)
     | _ => (sv, err 405)
   | .doc q =>
-    if 47 ∈ q then (sv, err 404) else          -- "/db/a/b" is an attachment path: not found
-    let i := unquote q
-    match rq.method with
-    | .GET =>
-      match live sv i with
-      | some (g, d) => (sv, ⟨200, true, .doc i g d, some g⟩)
-      | none => (sv, err 404)
-    | .HEAD =>
-      match live sv i with
-      | some (g, _) => (sv, ⟨200, true, .empty, some g⟩)
-      | none => (sv, ⟨404, true, .empty, none⟩)
-    | .PUT =>
-      match rq.data with
-      | none => (sv, err 400)
-      | some d =>
-        match live sv i with
-        | some (g, _) =>
-          if rq.rev = some g then (write sv i (some d), ⟨201, true, .written i (g + 1), some (g + 1)⟩)
-          else (sv, err 409)
-        | none =>
-          if rq.rev = none then (write sv i (some d), ⟨201, true, .written i (genOf sv i + 1), some (genOf sv i + 1)⟩)
-          else (sv, err 409)
-    | .DELETE =>
-      match live sv i with
-      | some (g, _) =>
-        if rq.rev = some g then (write sv i none, ⟨200, true, .written i (g + 1), some (g + 1)⟩)
-        else (sv, err 409)
-      | none => (sv, err 404)
+    if 47 ∈ q then (sv, err 404)           -- "/db/a/b" is an attachment path: not found
+    else serveDoc sv (unquote q) rq
 
 /-! ### The external writer: another well-behaved CouchDB client that wins its race (acts on the server directly) -/
 
